@@ -991,3 +991,110 @@ def c19_static_obligations(repo):
         ranks = [0 if c == cls else rank[c] for c in order if c == cls or c in rank]
         out.append(('%s resolves %s most specific first' % (name, [c for c in order if c == cls or c in rank]), ranks == sorted(ranks) and 'Global' in order))
     return out
+
+
+# ------------------------------------------------------------------------------------------ C14
+
+TARGETS = dict(COMMON, **{
+    'nbdime.diffing.notebooks.set_notebook_diff_ignores': {'effect': 'set_ignores', 'raises': True, 'returns': 'none'},
+})
+
+# category -> paths that must be switched by its flag (the property's category table)
+CATEGORY_PATHS = {
+    'sources': ['/cells/*/source'], 'outputs': ['/cells/*/outputs'], 'attachments': ['/cells/*/attachments'],
+    'metadata': ['/metadata', '/cells/*/metadata', '/cells/*/outputs/*/metadata'], 'identifier': ['/cells/*/id'],
+}
+
+
+def tg_table(path):
+    "set_notebook_diff_targets hands set_notebook_diff_ignores a table in which every path of a category is ignored exactly when that category's flag is false"
+    if path.outcome != 'return':
+        return None
+    calls = _eff(path, 'set_ignores')
+    if len(calls) != 1:
+        return False, '%d calls of set_notebook_diff_ignores' % len(calls)
+    cfg = calls[0].args[0]
+    if not (isinstance(cfg.origin, tuple) and cfg.origin[0] == 'dict'):
+        return False, 'the table is not a literal dict'
+    table = cfg.origin[1]
+    for cat, paths in CATEGORY_PATHS.items():
+        flag = path.env[cat]
+        for p in paths:
+            if p not in table:
+                return False, 'path %s of category %s is not in the table' % (p, cat)
+            v = table[p]
+            ok, _, verdict = path.entails(truth(v) == z3.Not(truth(flag)))
+            if not ok or v.kind != 'bool':
+                return False, 'table[%s] is not `not %s` (%s)' % (p, cat, verdict)
+    extra = set(table) - {p for ps in CATEGORY_PATHS.values() for p in ps} - {'/cells/*', '/cells/*/outputs/*'}
+    if extra:
+        return False, 'unexpected paths in the table: %s' % sorted(extra)
+    if [e for e in path.effects if e.name == 'setitem']:
+        return False, 'the table is modified after its construction (paths outside the category table may be switched)'
+    return True, 'category table complete'
+
+
+def tg_key_filters(path):
+    "details / id / attachments (atomic or optional keys of a cell) are hidden by key filters on /cells/* and /cells/*/outputs/*; with all of them shown the filters are reset (False)"
+    if path.outcome != 'return':
+        return None
+    calls = _eff(path, 'set_ignores')
+    if not (isinstance(calls[0].args[0].origin, tuple) and calls[0].args[0].origin[0] == 'dict'):
+        return False, 'the table is not a literal dict'
+    table = calls[0].args[0].origin[1]
+    if '/cells/*' not in table or '/cells/*/outputs/*' not in table:
+        return False, 'the key-filter paths /cells/* and /cells/*/outputs/* are not both set on every call (a filter installed earlier would survive)'
+    if [e for e in path.effects if e.name == 'setitem']:
+        return False, 'the table is modified after its construction'
+    details, ident, att = path.env['details'], path.env['identifier'], path.env['attachments']
+    ck = path.env.get('cell_keys')
+    want = []
+    for flag, key in ((details, 'execution_count'), (ident, 'id'), (att, 'attachments')):
+        if path.entails(z3.Not(truth(flag)))[0]:
+            want.append(key)
+        elif not path.entails(truth(flag))[0]:
+            return None          # flag undetermined on this path (cannot happen: each flag is branched on)
+    got = ck.t if ck is not None and ck.kind == 'const' else None
+    if got is None or sorted(got) != sorted(want):
+        return False, 'cell key filter is %r, expected %r' % (got, want)
+    def is_value(sym, expected):
+        if sym.kind == 'const':
+            return sym.t == expected or (isinstance(expected, (list, tuple)) and isinstance(sym.t, (list, tuple)) and sorted(sym.t) == sorted(expected))
+        return path.entails(as_py(sym) == as_py(const(expected)))[0]
+    v = table['/cells/*']
+    ok = is_value(v, tuple(got) if want else False)
+    o = table['/cells/*/outputs/*']
+    if path.entails(truth(details))[0]:
+        ok = ok and is_value(o, False)
+    else:
+        ok = ok and is_value(o, ('execution_count',))
+    return ok, 'key filters %r' % (want,)
+
+
+C14_JOBS = [('nbdime.diffing.notebooks.set_notebook_diff_targets', TARGETS, [('category-table', tg_table), ('key-filters', tg_key_filters)], False)]
+
+
+def dispatch_obligations(repo):
+    """Dispatch lemma (syntactic): every recursive differ call in the generic differs hands on the sub-path and the configuration,
+    and the callee is taken from config.differs[subpath]."""
+    import ast as _ast
+    import os as _os
+    out = []
+    for rel, fnames in (('nbdime/diffing/generic.py', ['diff_lists', 'diff_dicts']), ('nbdime/diffing/snakes.py', ['compute_diff_from_snakes']),
+                        ('nbdime/diffing/notebooks.py', ['diff_single_outputs'])):
+        tree = _ast.parse(open(_os.path.join(repo, rel)).read())
+        for fn in [n for n in _ast.walk(tree) if isinstance(n, _ast.FunctionDef) and n.name in fnames]:
+            assigns = {t.id: _ast.unparse(n.value) for n in _ast.walk(fn) if isinstance(n, _ast.Assign) for t in n.targets if isinstance(t, _ast.Name)}
+            for call in [n for n in _ast.walk(fn) if isinstance(n, _ast.Call)]:
+                name = _ast.unparse(call.func)
+                if name == 'diffit':
+                    kws = {k.arg: _ast.unparse(k.value) for k in call.keywords}
+                    out.append(('%s: diffit(...) at line %d passes path=subpath and config=config' % (fn.name, call.lineno),
+                                kws.get('path') == 'subpath' and kws.get('config') == 'config'))
+                    out.append(('%s: diffit is config.differs[subpath]' % fn.name, assigns.get('diffit') == 'config.differs[subpath]'))
+                if fn.name == 'diff_single_outputs' and name in ('diff', 'diff_mime_bundle'):
+                    kws = {k.arg: _ast.unparse(k.value) for k in call.keywords}
+                    want_path = "path + '/data'" if name == 'diff_mime_bundle' else 'path'
+                    out.append(('diff_single_outputs: %s(...) at line %d passes path=%s and config=config' % (name, call.lineno, want_path),
+                                kws.get('path') == want_path and kws.get('config') == 'config'))
+    return out
